@@ -594,6 +594,40 @@ fn dense_triples(n: usize) -> Vec<Triple> {
     out
 }
 
+/// s2 = 1 and h = c - v, so that s1 = v: v is one extreme value on a support {all, i = r mod m, a half} and 0
+/// elsewhere. The squared norm reaches n * 6144^2 overall and its maximum on every stride class (accumulators
+/// that are split into lanes or blocks, or too narrow for one variant), and stays tiny for v = +-1.
+fn extreme_s1_triples(n: usize) -> Vec<Triple> {
+    let salt = vec![0x44u8; 40];
+    let msg = b"extreme s1".to_vec();
+    let mut sm = salt.clone();
+    sm.extend_from_slice(&msg);
+    let c = keccak::hash_to_point(&sm, n, None);
+    let mut s2 = vec![0i64; n];
+    s2[0] = 1;
+    let body = body_of(n, &s2).unwrap();
+    let mut supports: Vec<(usize, usize)> = vec![(1, 0), (0, 0), (0, 1)];
+    let mut m = 2;
+    while m <= 64 {
+        for r in 0..m {
+            supports.push((m, r));
+        }
+        m *= 2;
+    }
+    let mut out = vec![];
+    for &val in &[6144i64, -6144, 6143, -6143, 1, -1, 2048, -4096] {
+        for &(m, r) in &supports {
+            let inside = |i: usize| match m {
+                0 => (i >= n / 2) == (r == 1),
+                _ => i % m == r,
+            };
+            let h: Vec<i64> = (0..n).map(|i| zq::sub(c[i], if inside(i) { val.rem_euclid(Q) } else { 0 })).collect();
+            out.push(Triple { n, msg: msg.clone(), sig: encode_sig(n, &salt, &body), pk: keycodec::pk_encode(&h), expect: None, tag: format!("extreme-s1:n={},v={},stride={}", n, val, m) });
+        }
+    }
+    out
+}
+
 /// s2 with one coefficient outside the centred range of Z_q (|a| > q/2) and a small s1: the norm must
 /// be computed from the decoded integers, not from residues
 fn big_s2_triples(n: usize) -> Vec<Triple> {
@@ -772,6 +806,7 @@ fn one_variant<V: Variant>(ctx: &mut Ctx, tier: Tier) {
         run_triples::<V>(ctx, &format!("centred_edge_{}", n), "s1[0] in {6144,-6144,6143,-6143} with total norm B-1, B, B+1", edge_triples(n));
     }
     run_triples_g::<V>(ctx, &format!("big_s2_{}", n), "s2 = a X^i with a in {+-6144, +-6145, +-8192, +-12159, +-12160, +-12288, +-12289, 12290, +-24578} (outside the centred range of Z_q), i in {0,1,n/2,n-1}, s1 small: the squared norm is over the decoded integers", big_s2_triples(n), false);
+    run_triples::<V>(ctx, &format!("extreme_s1_{}", n), "s2 = 1 and h = c - v so that s1 = v, v in {+-6144, +-6143, +-1, 2048, -4096} on a support {every index, i = r mod m for m in {2,...,64} and every r, lower half, upper half}, 0 elsewhere: norms from n+1 up to the maximum n * 6144^2 + 1, overall and per stride class", extreme_s1_triples(n));
     run_triples::<V>(ctx, &format!("dense_{}", n), "dense short (s1,s2) of honest magnitude tuned to total norm B-1, B, B+1, B/2", dense_triples(n));
     lookalike_key_histories::<V>(ctx);
     run_triples::<V>(ctx, &format!("run_alignment_{}", n), "s2 = +-(128 r + low) X^j for every unary run length r in 0..=95, low in {0,127}, j in 1..=8 (all eight cursor alignments), s1 = 0: accepted iff the square is within the bound", run_alignment_triples(n));
